@@ -39,6 +39,7 @@ type val struct {
 	lit  *ast.FuncLit // a local function literal (inlined when called)
 	cmp  string       // for vBool with lin: the comparison `lin cmp 0` it stands for
 	cnam string       // … and, when one side is a named constant of an enumeration type, that name
+	nn   bool         // known not to be nil (a package-level singleton that is never reassigned)
 }
 
 func unk(desc string) val { return val{kind: vUnknown, desc: desc} }
@@ -235,6 +236,7 @@ type symExec struct {
 	overflow        bool
 	inlineMemo      map[*types.Func]bool
 	assignCounts    map[types.Object]int
+	singletons      map[types.Object]bool
 	inlineAll       bool
 	primitive       map[*types.Func]bool // never inlined: recorded as events
 	noRet           map[*types.Func]int  // 1 = never returns (every path panics), 2 = returns
@@ -684,6 +686,54 @@ func isPurePath(e ast.Expr) bool {
 	return false
 }
 
+// singleton: a package-level variable of pointer type that is initialised where it is declared and never
+// assigned again (py.StopIteration, py.None, …): it is not nil.
+func (se *symExec) singleton(obj types.Object) bool {
+	v, ok := obj.(*types.Var)
+	if !ok || v.Pkg() == nil || v.Parent() != v.Pkg().Scope() {
+		return false
+	}
+	if _, isPtr := v.Type().Underlying().(*types.Pointer); !isPtr {
+		return false
+	}
+	p := se.c.Pkgs[v.Pkg().Path()]
+	if p == nil {
+		return false
+	}
+	if se.singletons == nil {
+		se.singletons = map[types.Object]bool{}
+	}
+	if r, ok := se.singletons[obj]; ok {
+		return r
+	}
+	inited, assigned := false, false
+	for _, f := range se.c.Files(p) {
+		ast.Inspect(f, func(n ast.Node) bool {
+			switch y := n.(type) {
+			case *ast.ValueSpec:
+				for i, nm := range y.Names {
+					if p.TypesInfo.Defs[nm] == obj && (i < len(y.Values) || len(y.Values) == 1) {
+						inited = true
+					}
+				}
+			case *ast.AssignStmt:
+				for _, l := range y.Lhs {
+					if id := identOf(l); id != nil && p.TypesInfo.Uses[id] == obj {
+						assigned = true
+					}
+				}
+			case *ast.UnaryExpr:
+				if id := identOf(y.X); y.Op == token.AND && id != nil && p.TypesInfo.Uses[id] == obj {
+					assigned = true
+				}
+			}
+			return true
+		})
+	}
+	se.singletons[obj] = inited && !assigned
+	return inited && !assigned
+}
+
 // assignCount: how often the object is assigned (or has its address taken) anywhere in its package.
 func (se *symExec) assignCount(obj types.Object) int {
 	if se.assignCounts == nil {
@@ -985,7 +1035,9 @@ func (se *symExec) eval(e ast.Expr, st *sstate) []ev {
 			if v, ok := st.vars[obj]; ok {
 				return one(st, se.symInt(e, v))
 			}
-			return one(st, se.symInt(e, unk(x.Name)))
+			v := unk(x.Name)
+			v.nn = se.singleton(obj)
+			return one(st, se.symInt(e, v))
 		}
 		return one(st, unk(x.Name))
 	case *ast.SelectorExpr:
@@ -1192,6 +1244,10 @@ func (se *symExec) binop(x *ast.BinaryExpr, l, r val) val {
 	}
 	switch x.Op {
 	case token.EQL, token.NEQ:
+		// a package-level singleton is not nil
+		if (l.nn && r.kind == vErrNil) || (r.nn && l.kind == vErrNil) {
+			return val{kind: vBool, bk: true, b: x.Op == token.NEQ}
+		}
 		// error nil tests
 		if (l.kind == vErrNil || l.kind == vErrNonNil) && r.kind == vErrNil {
 			isNil := l.kind == vErrNil
@@ -1517,6 +1573,45 @@ func (se *symExec) execSwitch(x *ast.SwitchStmt, st *sstate) (fall []*sstate, re
 				sts = f
 			}
 			fall = append(fall, sts...)
+		}
+		if tagv == nil {
+			// a tagless switch is an if / else-if chain: every state in which the earlier cases failed goes on
+			for i, cl := range clauses {
+				if cl.(*ast.CaseClause).List == nil {
+					dflt, dfltIdx = cl.(*ast.CaseClause), i
+				}
+			}
+			var chain func(i int, s *sstate)
+			chain = func(i int, s *sstate) {
+				for i < len(clauses) && clauses[i].(*ast.CaseClause).List == nil {
+					i++
+				}
+				if i >= len(clauses) {
+					if dflt != nil {
+						runFrom(dfltIdx, s)
+					} else {
+						fall = append(fall, s)
+					}
+					return
+				}
+				states := []*sstate{s}
+				for _, ce := range clauses[i].(*ast.CaseClause).List {
+					var next []*sstate
+					for _, st0 := range states {
+						tr, fa := se.branch(ce, st0)
+						for _, t := range tr {
+							runFrom(i, t)
+						}
+						next = append(next, fa...)
+					}
+					states = next
+				}
+				for _, st0 := range states {
+					chain(i+1, st0)
+				}
+			}
+			chain(0, base)
+			continue
 		}
 		for i, cl := range clauses {
 			cc := cl.(*ast.CaseClause)
